@@ -29,7 +29,7 @@ def run(S):
     found = []
     found += markup.explore_tokens(S, N)
     if not found:
-        found += markup.explore_markup(S, K)
+        found += markup.explore_markup(S, K, focus_last=S.tier == 'quick')
     markup.report(S, 'C08', found)
     # whole prose documents through the real printer (nested markup: list items, headings, strong / emph, content blocks), blanks symbolic
     from . import deep
